@@ -334,6 +334,19 @@ def kymoWindow (x1 y1 x2 y2 w h : Int) : Except Err (Int × Int × Int × Int) :
     if ymin < 0 ∨ ymax > h then .error .value
     else .ok (x1, x2 + 1, ymin, ymax)
 
+/-- All consecutive differences equal the first one (`np.all(np.diff(x) == np.diff(x)[0])`). -/
+def constDiffs : List Int → Bool
+  | a :: b :: rest => ((b :: rest).zip rest).all fun (x, y) => y - x == b - a
+  | _ => true
+
+/-- The timing checks at the head of `_kymo_from_image_stack` on the exposure ranges: fewer than two frames
+    is an (undocumented) `IndexError` of `line_times[0]`; a non-constant frame rate or exposure a `ValueError`. -/
+def kymoTiming (ranges : List (Int × Int)) : Except Err Unit :=
+  if ranges.length < 2 then .error .index
+  else if !constDiffs (ranges.map (·.1)) then .error .value
+  else if !(ranges.map fun r => r.2 - r.1).all (· == (ranges.head?.map fun r => r.2 - r.1).getD 0) then .error .value
+  else .ok ()
+
 /-- `to_kymo` as far as indexing goes: the stack whose frames/ROI give the kymograph's pixels. -/
 def Stack.kymoStack (s : Stack) (x1 y1 x2 y2 w : Int) : Except Err Stack := do
   let (a, b, c, d) ← kymoWindow x1 y1 x2 y2 w s.roi.height
@@ -385,6 +398,7 @@ def bound? (s : String) : Option Bound :=
   else (s.toInt?).map .int
 
 def ofInt (i : Int) : Float := Float.ofInt i
+def floorInt (x : Float) : Int := (Float.floor x).toInt64.toInt
 
 def withRoi (t : TStack) (r : Except Err Stack) : Except Err TStack :=
   r.map fun s => ⟨s, t.teth.withNewOffsets (ofInt s.roi.xMin) (ofInt s.roi.yMin)⟩
@@ -395,7 +409,7 @@ def withRoi (t : TStack) (r : Except Err Stack) : Except Err TStack :=
   `g,<item>,<item>,…`   tuple index, items `k` or `a:b` or `a:b:c`
   `t,a,b,c`       frame slice with time-like bounds (`r<ns>` = time string of that many ns)
   `T,x1,y1,x2,y2` `define_tether` (doubles as bit patterns)
-  `k,x1,y1,x2,y2,w` stack behind `to_kymo(w)` given the floors of the processed tether ends -/
+  `k,w`           the stack behind `to_kymo(w)` (timing checks, floors of the processed tether ends, window) -/
 def step (pages : List Page) (t : TStack) (op : String) : Option (Except Err TStack) :=
   match op.splitOn "," with
   | ["s", a, b, c] => do
@@ -420,9 +434,16 @@ def step (pages : List Page) (t : TStack) (op : String) : Option (Except Err TSt
   | ["T", x1, y1, x2, y2] => do
     let x1 ← float? x1; let y1 ← float? y1; let x2 ← float? x2; let y2 ← float? y2
     some (.ok { t with teth := t.teth.withTether ⟨x1, y1⟩ ⟨x2, y2⟩ })
-  | ["k", x1, y1, x2, y2, w] => do
-    let x1 ← int? x1; let y1 ← int? y1; let x2 ← int? x2; let y2 ← int? y2; let w ← int? w
-    some (withRoi t (t.stk.kymoStack x1 y1 x2 y2 w))
+  | ["k", w] => do
+    let w ← int? w
+    let r ← t.stk.ranges pages false false
+    match kymoTiming r with
+    | .error e => some (.error e)
+    | .ok () =>
+      match t.teth.endsProcessed with
+      | none => some (.error .value)
+      | some (a, b) =>
+        some (withRoi t (t.stk.kymoStack (floorInt a.x) (floorInt a.y) (floorInt b.x) (floorInt b.y) w))
   | _ => none
 
 def runProg (pages : List Page) : TStack → List String → Option (Except Err TStack)
